@@ -87,4 +87,9 @@ theorem text_New_ok : Oidc.Shapes.Text_New := by unfold Oidc.Shapes.Text_New; rf
 /-! ## Program text of the helpers these theorems also rest on (constructors, accessors, token endpoint, configuration) -/
 theorem text_handleError_ok : Oidc.Shapes.Text_handleError := by unfold Oidc.Shapes.Text_handleError; rfl
 
+/-! further functions these theorems rest on -/
+theorem shape_ServeHTTP_ok : Oidc.Shapes.Shape_ServeHTTP := by unfold Oidc.Shapes.Shape_ServeHTTP; rfl
+theorem text_SessionData_GetAccessToken_ok : Oidc.Shapes.Text_SessionData_GetAccessToken := by unfold Oidc.Shapes.Text_SessionData_GetAccessToken; rfl
+theorem text_SessionData_GetEmail_ok : Oidc.Shapes.Text_SessionData_GetEmail := by unfold Oidc.Shapes.Text_SessionData_GetEmail; rfl
+
 end Oidc.Props.C10
